@@ -229,8 +229,10 @@ def check_number(name, mod, getters, v, x, viols, cells, clock=None):
                 add(viols, 'C12|mac|oui-and-iab-do-not-make-up-the-address', 'mac.get_oui(%r) = %r, get_iab = %r, address %r' % (x, val, iab[1:2], hexs), dict(w, getter=gname))
         if gname == 'split':
             parts = list(val) if isinstance(val, (list, tuple)) else None
-            if parts is None or not all(isinstance(p, str) for p in parts) or ''.join(parts) != v:
-                add(viols, 'C12|%s.split|parts-do-not-concatenate' % name, '%s.split(%r) = %r does not concatenate to the canonical number %r' % (
+            if parts is None:
+                add(viols, 'C12|%s.split|returns-%s' % (name, type(val).__name__), '%s.split(%r) = %r for a number validate() accepts' % (name, x, val), dict(w, getter=gname))
+            elif not all(isinstance(p, str) for p in parts) or ''.join(parts) != v:
+                add(viols, 'C12|%s.split|parts-do-not-concatenate|%d-character-number' % (name, len(v)), '%s.split(%r) = %r does not concatenate to the canonical number %r' % (
                     name, x, val, v), dict(w, getter=gname))
         if gname == 'get_birth_date' and val is not None:
             if not isinstance(val, datetime.date):
@@ -282,6 +284,7 @@ def work(shard, tier):
                 pairs.append((o[1], x))
         extra = C.synth_valid(name, n, rng, base=base) + C.synth_alphabet(name, rng, k=2) + C.synth_digits_only(name, rng, k=3)
         extra += C.synth_field_extremes(name, rng, k=1 if tier == 'quick' else 3, raw=False, cap=150 if tier == 'quick' else 2000)[:200 if tier == 'quick' else 3000]
+        extra += C.synth_table_boundaries(name, rng, cap=300 if tier == 'quick' else 4000)
         if 'split' in getters:
             extra += C.synth_boundaries(name, rng, k=2 if tier == 'quick' else 6)
         reg = registry_witnesses(name, mod, rng, 8 if tier == 'quick' else 300)
